@@ -31,53 +31,68 @@ def vo_fresh(vfile):
     return os.path.exists(vo) and os.path.getmtime(vo) >= os.path.getmtime(v)
 
 def run_cases(P, cases, builds, want_model=True, envs=None):
-    """returns dict name -> rows; 'model' -> rows.  Cases carrying cpu=<sse2|none> are run in a
-    separate process with MEMCHR_VERIF_CPU set, so that the real dispatcher takes that branch."""
+    """returns dict name -> rows; 'model' -> rows.  Cases carrying cpu=<sse2|none> are run in separate
+    processes with MEMCHR_VERIF_CPU set, so that the real dispatcher takes that branch.  The case list is cut
+    into shards which run concurrently (model and every build), one process per shard."""
     import re
+    from concurrent.futures import ThreadPoolExecutor
     os.makedirs(vlib.CASES, exist_ok=True)
     out = {}
-    path = os.path.join(vlib.CASES, f"{P['id']}.{os.getpid()}.cases")
-    vlib.write_cases(path, cases)
+    base = os.path.join(vlib.CASES, f"{P['id']}.{os.getpid()}")
     groups = {}
     for i, line in enumerate(cases):
         m = re.search(r"\bcpu=(\w+)", line)
         key = m.group(1) if m and m.group(1) in ("sse2", "none") else "host"
         groups.setdefault(key, []).append(i)
-    try:
-        if want_model:
-            mmax = P.get("model_max_len")
-            if mmax:
-                mpath = path + ".model"
-                vlib.write_cases(mpath, [(l if len(vlib.parse_case(l)[1].get("h", "")) // 2 <= mmax else "# too large for the model") for l in cases])
-                try:
-                    out["model"] = vlib.run_model(mpath)
-                finally:
-                    os.remove(mpath)
-            else:
-                out["model"] = vlib.run_model(path)
-        for name, exe, env in builds:
-            if list(groups) == ["host"]:
-                out[name] = vlib.run_lines(exe, path, env=env)
-                continue
-            rows = [("MISSING", "-")] * len(cases)
-            for key, idxs in groups.items():
-                gp = path + "." + key
-                vlib.write_cases(gp, [cases[i] for i in idxs])
-                e2 = dict(env or {})
-                if key != "host":
-                    e2["MEMCHR_VERIF_CPU"] = key
-                try:
-                    r = vlib.run_lines(exe, gp, env=e2)
-                finally:
-                    os.remove(gp)
-                for j, i in enumerate(idxs):
-                    rows[i] = r[j]
-            out[name] = rows
-    finally:
+    jobs = int(os.environ.get("VERIF_JOBS", "16"))
+    shard = max(400, (len(cases) + jobs - 1) // jobs) if not P.get("no_shard") else len(cases) + 1
+    tasks = []      # (name, idxs, fn)
+    counter = [0]
+    def add(name, idxs, runner):
+        for s in range(0, len(idxs), shard):
+            counter[0] += 1
+            tasks.append((name, idxs[s:s + shard], runner, f"{base}.{counter[0]}"))
+    mmax = P.get("model_max_len")
+    def model_runner(path, idxs):
+        lines = [cases[i] for i in idxs]
+        if mmax:
+            lines = [(l if len(vlib.parse_case(l)[1].get("h", "")) // 2 <= mmax else "# too large for the model") for l in lines]
+        vlib.write_cases(path, lines)
         try:
+            return vlib.run_model(path)
+        finally:
             os.remove(path)
-        except OSError:
-            pass
+    if want_model:
+        add("model", list(range(len(cases))), model_runner)
+    for name, exe, env in builds:
+        for key, idxs in groups.items():
+            e2 = dict(env or {})
+            if key != "host":
+                e2["MEMCHR_VERIF_CPU"] = key
+            def runner(path, idxs, exe=exe, e2=e2):
+                vlib.write_cases(path, [cases[i] for i in idxs])
+                try:
+                    return vlib.run_lines(exe, path, env=e2)
+                finally:
+                    os.remove(path)
+            add(name, idxs, runner)
+    def work(t):
+        name, idxs, runner, path = t
+        return name, idxs, runner(path, idxs)
+    with ThreadPoolExecutor(max_workers=jobs) as ex:
+        results = list(ex.map(work, tasks))
+    model_short = False
+    for name, idxs, rows in results:
+        if name not in out:
+            out[name] = [("MISSING", "-")] * len(cases)
+        if name == "model" and len(rows) != len(idxs):
+            model_short = (rows[-1] if rows else ("", ""))
+            continue
+        for j, i in enumerate(idxs):
+            if j < len(rows):
+                out[name][i] = rows[j]
+    if model_short:
+        out["model"] = [model_short]      # the caller reports a broken model driver
     return out
 
 def conc_run(P, tier, seed, builds, okm, stats, violations, mismatches):
